@@ -94,7 +94,7 @@ pub fn run_cell(ctx: &Ctx, plan: &LawPlan, min_n: u64) -> Option<LawOutcome> {
 }
 
 pub fn plans_c01(ctx: &Ctx) -> Vec<LawPlan> {
-    let (n_grid, n_rand, k_rand) = if ctx.thorough() { (100_000_000, 10_000_000, 200) } else { (4_000_000, 4_000_000, 24) };
+    let (n_grid, n_rand, k_rand) = if ctx.thorough() { (100_000_000, 10_000_000, 200) } else { (4_000_000, 4_000_000, 48) };
     let mut plans = vec![];
     for &fam in CONTINUOUS.iter().chain(CTOR_VARIANTS.iter()) {
         for ft in [Ft::F32, Ft::F64] {
@@ -114,7 +114,7 @@ pub fn plans_c01(ctx: &Ctx) -> Vec<LawPlan> {
 }
 
 pub fn plans_c02(ctx: &Ctx) -> Vec<LawPlan> {
-    let (n_small, n_grid, n_rand, k_rand) = if ctx.thorough() { (4_000_000, 100_000_000, 10_000_000, 300) } else { (200_000, 4_000_000, 4_000_000, 24) };
+    let (n_small, n_grid, n_rand, k_rand) = if ctx.thorough() { (4_000_000, 100_000_000, 10_000_000, 300) } else { (200_000, 4_000_000, 4_000_000, 40) };
     let mut plans = vec![];
     // exhaustive small sets
     let ps = [0.0, 2f64.powi(-60), 1e-9, 0.01, 0.05, 0.1, 0.25, 1.0 / 3.0, 0.4, 0.49, 0.5, 0.51, 0.6, 2.0 / 3.0, 0.75, 0.9, 0.99, 1.0 - 1e-9, 1.0];
